@@ -262,7 +262,7 @@ TEXT["C06"] = {
              "monitor's book of exchanges to the store, the timers and the exchange states). A "
              "monitor that tracks the exchanges of both directions by direction AND message ID, independently of the gateway's store, "
              "runs on every implementation trace: a lost acknowledgement outside the recorded interference class is a violation.",
-    "note": GW_NOTE + " Partial: the positive theorem covers the gateway (for the client library only the refutation and the monitor); the schedule part of the quantifier is outside the event-atomic models.",
+    "note": GW_NOTE + " Partial: both components violate the property in the interference class (recorded findings); the positive theorems (gateway: all histories; client: every step from any state) show that nothing else fails; the schedule part of the quantifier is outside the event-atomic models.",
     "technique": "Coq refutation theorems with replayed witnesses + direction-aware exchange monitor on the implementation traces + differential execution",
 }
 
@@ -347,8 +347,11 @@ TEXT["C16"] = {
              "finished exchange, with one PUBCOMP; every acknowledgement step of a broker-publish exchange is relayed. (Liveness) "
              "C16_qos1_delivered_within_the_retry_budget: in the composed system a broker QoS 1 message on a subscribed short topic "
              "is delivered and acknowledged to the broker under ANY pattern of lost PUBLISHes / PUBACKs of at most RetryCount rounds "
-             "(exact traces; the bound is sharp). QoS 2, the REGISTER step and duplication are checked by the end-to-end monitor on "
+             "(exact traces; the bound is sharp); C16_qos2_completes_exactly_once_with_one_loss: a QoS 2 message with one lost "
+             "datagram at any of the four positions completes on both sides with the handler run exactly once; "
+             "C16_register_step_survives_a_lost_regack (+ the other loss positions in ComposeLoss2.v). Arbitrary QoS 2 loss "
+             "patterns and duplication are checked by the end-to-end monitor on "
              "the real client + real gateway joined by a lossy link, against the composed model.",
-    "note": COMMON_NOTE + " Partial: liveness is proved for QoS 1 on short topics under loss; QoS 2 / REGISTER / duplication patterns are tested (generated fault lists within and beyond the budget), not proved.",
+    "note": COMMON_NOTE + " Partial: liveness is proved for QoS 1 on short topics under any loss pattern within the budget, for QoS 2 and the REGISTER step with one lost datagram; longer QoS 2 loss patterns and duplication are tested (generated fault lists within and beyond the budget), not proved.",
     "technique": "Coq step lemmas on the retry timer (gateway) and PUBREL handling (client) + end-to-end differential execution over a lossy link with a liveness monitor",
 }
